@@ -242,6 +242,13 @@ pub fn run(a: &Args, out: &mut impl Write) {
     for &(pc, t) in &[(0x1_0000_0000u64, 0x1_0000_0004u64), (0x1_0000_0000, 0x1_0800_0000), (0x1_0000_0000, 0x1_07ff_fffc), (0x1_0800_0000, 0x1_0000_0000), (0x1_0800_0004, 0x1_0000_0000)] {
         longj(out, pc, t);
     }
+    // entries in the first and last words of a page (the 12-byte patch then straddles the boundary), near and far
+    for off in [0xff0u64, 0xff4, 0xff8, 0xffc, 0x000, 0x004] {
+        for t in [0x1_0000_4008u64, 0x1_4000_0000, 0x8204_c000, 0x8204_cff8, 0x2_0000_0000, 0x1_8000_0ffc] {
+            longj(out, 0x1_0204_8000 + off, t);
+            longj(out, t & !0xfff | off, 0x1_0204_8000 + (t & 0xffc));
+        }
+    }
     for _ in 0..a.n {
         let pc = ((r.next() >> 18) & !3) | 0x1_0000_0000;
         let t = match r.below(4) {
